@@ -313,6 +313,219 @@ void h_message(void)
 }
 #endif
 
+/* ---------- target "message_body": rfc1035MessageUnpack's OWN obligations, over light contract stubs ----------
+ * QueryUnpack / RRUnpack are the -DM_LIGHT stubs of models.c (requires asserted; *off and the result constrained as proved by
+ * targets queryunpack / rrunpack; record contents untouched except RR->rdata = fresh block / NULL); the header decoder,
+ * rfc1035MessageDestroy and rfc1035RRDestroy are the REAL text.  Ghost counters of the stubs let the harness state: which
+ * calls were made, that the result is the number of accepted records, that every array slot handed to the record decoder was
+ * inside the allocated array (the stub's w_ok requires), and (--memory-leak-check) that every path frees what it allocated
+ * once the caller has done its duty (MessageDestroy on a returned message).
+ * BOUND (labelled): ANCOUNT <= ANMAX (header octets 6,7). */
+#if defined(T_MESSAGE_BODY)
+extern unsigned cv_q_calls, cv_q_ok, cv_rr_calls, cv_rr_ok, cv_off_max;
+extern const void *cv_q_last, *cv_rr_last;
+void h_message_body(void)
+{
+    size_t g_any; g = g_any;        /* ghost index really arbitrary */
+    size_t sz;
+    __CPROVER_assume(sz <= N);                       /* ANY datagram of at most N octets, including the empty one */
+    char *buf = malloc(sz); __CPROVER_assume(buf != NULL);
+    __CPROVER_assume(sz < 8 || spec_be16(buf + 6) <= ANMAX);          /* BOUND: ANCOUNT <= ANMAX */
+    unsigned qd = sz >= 6 ? spec_be16(buf + 4) : 0, an = sz >= 8 ? spec_be16(buf + 6) : 0, rc = sz >= 4 ? (spec_be16(buf + 2) & 15) : 0;
+    rfc1035_message *ans = NULL;                    /* as the only caller (idnsGrokReply) initialises it */
+    int n = rfc1035MessageUnpack(buf, sz, &ans);
+    /* result conventions */
+    __CPROVER_assert((n >= -15 && n <= -1) || n == 0 || (n >= 1 && (unsigned)n <= an),
+                     "ensures: result is -15..-1 (error), 0, or a record count of at most ANCOUNT");
+    __CPROVER_assert(!(sz < 12 || qd != 1) || (n == -15 && ans == NULL && cv_q_calls == 0 && cv_rr_calls == 0),
+                     "ensures: a datagram shorter than a header or with QDCOUNT != 1 is refused before anything is decoded");
+    __CPROVER_assert(!(sz >= 12 && qd == 1) || cv_q_calls == 1, "ensures: exactly one question is decoded");
+    __CPROVER_assert(!(cv_q_calls == 1 && cv_q_ok == 0) || (n == -15 && ans == NULL && cv_rr_calls == 0),
+                     "ensures: a corrupt question => unpack error, no message, no record decoded");
+    __CPROVER_assert(!(cv_q_ok == 1 && rc != 0) || (n == -(int)rc && ans != NULL && ans->answer == NULL && cv_rr_calls == 0),
+                     "ensures: the server's RCODE is returned negated with the message, no record decoded");
+    __CPROVER_assert(!(cv_q_ok == 1 && rc == 0 && an == 0) || (n == 0 && ans != NULL && ans->answer == NULL && cv_rr_calls == 0),
+                     "ensures: ANCOUNT == 0 => 0 with the message");
+#ifdef TWIN_MSGB
+    __CPROVER_assert(!(cv_q_ok == 1 && rc == 0 && an > 0) || !(n == (cv_rr_ok ? (int)cv_rr_ok : -15)),
+                     "ensures: TWIN (negated) the result counts the accepted records");
+#else
+    __CPROVER_assert(!(cv_q_ok == 1 && rc == 0 && an > 0) || (n == (cv_rr_ok ? (int)cv_rr_ok : -15)),
+                     "ensures: otherwise the result is the number of accepted records, or the unpack error if there is none");
+#endif
+    __CPROVER_assert(cv_rr_calls <= an && cv_rr_calls - cv_rr_ok <= 1,
+                     "ensures: at most ANCOUNT records are decoded and decoding stops at the first refused one");
+    __CPROVER_assert(cv_off_max <= sz, "ensures: no accepted question/record ends beyond the datagram");
+    /* the returned message */
+    __CPROVER_assert((ans != NULL) == (cv_q_ok == 1 && (n >= 0 || n == -(int)rc) && (n != -15 || rc == 15)),
+                     "ensures: a message is returned exactly for n >= 0 and for server errors");
+    __CPROVER_assert(ans == NULL || (spec_header_matches(buf, ans) && ans->qdcount == 1 && ans->query == cv_q_last && ans->query != NULL),
+                     "ensures: a returned message carries the datagram's header and the one decoded question");
+    __CPROVER_assert(!(n > 0) || (ans->answer != NULL && __CPROVER_OBJECT_SIZE(ans->answer) == (size_t)an * sizeof(rfc1035_rr) &&
+                                  __CPROVER_POINTER_OFFSET(ans->answer) == 0 &&
+                                  cv_rr_last == &ans->answer[cv_rr_calls - 1]),
+                     "ensures: n > 0 => answer array of exactly ANCOUNT records; the records were decoded into its slots in order");
+    __CPROVER_assert(!(n > 0 && g < (size_t)n) || ans->answer[g].rdata != NULL,
+                     "ensures: each of the first n slots holds a decoded record (ghost index)");
+    __CPROVER_assert(!(n > 0 && g >= (size_t)n && g < an) || ans->answer[g].rdata == NULL,
+                     "ensures: slots beyond n hold no rdata (ghost index)");
+    _Bool had = ans != NULL;
+    rfc1035MessageDestroy(&ans);                   /* the caller's duty; afterwards --memory-leak-check: nothing is left */
+    __CPROVER_assert(ans == NULL, "ensures: MessageDestroy clears the pointer");
+    free(buf);
+#ifdef REACH
+    __CPROVER_assert(!(n == 1 && an == 1), "reach: one record of one");
+    __CPROVER_assert(!(n == 2 && an == ANMAX && cv_rr_calls == 3), "reach: two records accepted, third refused");
+    __CPROVER_assert(!(n == ANMAX), "reach: ANMAX records accepted");
+    __CPROVER_assert(!(n == 1 && cv_rr_calls == 1 && an > 1), "reach: datagram exhausted after one record (off >= sz)");
+    __CPROVER_assert(!(n == 0), "reach: no answers");
+    __CPROVER_assert(!(n == -3 && had), "reach: NXDOMAIN returned with the message");
+    __CPROVER_assert(!(n == -15 && !had && cv_rr_calls == 1), "reach: corrupt first record => everything freed, no message");
+    __CPROVER_assert(!(n == -15 && !had && cv_q_calls == 1 && cv_q_ok == 0), "reach: corrupt question");
+    __CPROVER_assert(!(n == -15 && sz == 0), "reach: empty datagram");
+    __CPROVER_assert(!(n == -15 && had), "reach: RCODE 15 returned with the message");
+#endif
+}
+#endif
+
+/* =====================================================================================================================
+ * Fidelity, packing side: rfc1035NamePack / rfc1035QuestionPack / rfc1035BuildAQuery followed by the REAL decoders.
+ * BOUNDED (labelled): names of at most L bytes (any bytes, any placement of dots).  strtok / xstrdup are models (models.c);
+ * strlen/strchr/memcpy/memset/strncasecmp are cbmc's library models; xstrncpy is the real text (slice of compat/xstring.cc).
+ * Reference: the dotted name a label sequence denotes is the input with its empty labels dropped (rfc1035NamePack's own
+ * comment: "use of strtok here makes names like foo....com valid") -- spec_canon below, written without looking at the code
+ * beyond that comment.  For names without empty labels spec_canon is the identity, which is asserted separately.
+ * ===================================================================================================================== */
+#if defined(T_NAME_ROUNDTRIP) || defined(T_QUESTION_ROUNDTRIP) || defined(T_AQUERY_ROUNDTRIP)
+int rfc1035NameUnpack_real(const char *buf, size_t sz, unsigned int *off, unsigned short *rdlength, char *name, size_t ns, int rdepth);
+/* out := in without empty labels (no leading dot, no dot after a dot, no trailing dot); returns strlen(out) */
+static size_t spec_canon(const char *in, size_t len, char *out)
+{
+    size_t o = 0;
+    for (size_t i = 0; i < L; i++) {
+        if (i >= len) break;
+        if (in[i] == '.' && (o == 0 || out[o - 1] == '.')) continue;
+        out[o++] = in[i];
+    }
+    if (o > 0 && out[o - 1] == '.') o--;
+    out[o] = 0;
+    return o;
+}
+static _Bool spec_no_empty_label(const char *in, size_t len)
+{
+    if (len == 0) return 1;
+    if (in[0] == '.' || in[len - 1] == '.') return 0;
+    for (size_t i = 0; i + 1 < L; i++) {
+        if (i + 1 >= len) break;
+        if (in[i] == '.' && in[i + 1] == '.') return 0;
+    }
+    return 1;
+}
+/* an arbitrary C string of exactly len <= L bytes */
+#define ANY_NAME(name, len) \
+    char name[L + 1]; size_t len; \
+    __CPROVER_assume(len <= L && name[len] == 0); \
+    for (size_t k_ = 0; k_ < L; k_++) __CPROVER_assume(k_ >= len || name[k_] != 0)
+#ifdef TWIN_RT
+#define RT_TWIN(x) (!(x))       /* TWIN: negated identity, must fail */
+#else
+#define RT_TWIN(x) (x)
+#endif
+#endif
+
+#if defined(T_NAME_ROUNDTRIP)
+void h_name_roundtrip(void)
+{
+    size_t g_any; g = g_any;
+    ANY_NAME(name, len);
+    char want[L + 1];
+    size_t wl = spec_canon(name, len, want);
+    char *wire = malloc(L + 2); __CPROVER_assume(wire != NULL);      /* exactly the largest packed size: any overrun is a pointer failure */
+    int n = rfc1035NamePack(wire, L + 2, name);
+    __CPROVER_assert(n == (int)(wl ? wl + 2 : 1), "ensures: packed size is strlen(canonical name) + 2, or 1 for the root");
+    __CPROVER_assert(wire[n - 1] == 0, "ensures: the packed name ends with the root label");
+    /* name buffer: one byte more than the decoded labels with their dots (L + 1) need; with exactly L + 1 the decoder's loop
+     * stops on `no < ns` before it has consumed the root label (accepted, but *off is left on the root label) */
+    char out[L + 2]; unsigned int off = 0;
+    int r = rfc1035NameUnpack_real(wire, (size_t)n, &off, NULL, out, L + 2, 0);
+    __CPROVER_assert(r == 0 && off == (unsigned)n, "ensures: the packed name is accepted and consumed entirely");
+    __CPROVER_assert(RT_TWIN(g > wl || out[g] == want[g]), "ensures: unpack(pack(name)) is the name without its empty labels, NUL included (ghost index)");
+    __CPROVER_assert(!spec_no_empty_label(name, len) || g > len || out[g] == name[g],
+                     "ensures: a name without empty labels decodes to itself (ghost index)");
+    free(wire);
+#ifdef REACH
+    __CPROVER_assert(!(len == 0), "reach: root name");
+    __CPROVER_assert(!(len == L && wl == L), "reach: full-length name without empty labels");
+    __CPROVER_assert(!(wl == 5 && want[1] == '.' && want[3] == '.'), "reach: three labels");
+    __CPROVER_assert(!(len == 5 && wl == 3 && name[0] == '.' && name[4] == '.'), "reach: leading and trailing dot dropped");
+    __CPROVER_assert(!(len == 3 && wl == 0), "reach: only dots = root");
+#endif
+}
+#endif
+
+#if defined(T_QUESTION_ROUNDTRIP)
+void h_question_roundtrip(void)
+{
+    size_t g_any; g = g_any;
+    ANY_NAME(name, len);
+    unsigned short type, cls;
+    char want[L + 1];
+    size_t wl = spec_canon(name, len, want);
+    char *wire = malloc(L + 2 + 4); __CPROVER_assume(wire != NULL);
+    int n = rfc1035QuestionPack(wire, L + 2 + 4, name, type, cls);
+    __CPROVER_assert(n == (int)(wl ? wl + 2 : 1) + 4, "ensures: packed question = packed name + QTYPE + QCLASS");
+    rfc1035_query q; unsigned int off = 0;
+    int r = rfc1035QueryUnpack(wire, (size_t)n, &off, &q);
+    __CPROVER_assert(r == 0 && off == (unsigned)n, "ensures: the packed question is accepted and consumed entirely");
+    __CPROVER_assert(RT_TWIN(q.qtype == type && q.qclass == cls), "ensures: QTYPE and QCLASS decode to the packed values");
+    __CPROVER_assert(g > wl || q.name[g] == want[g], "ensures: the question name decodes to the packed name without empty labels (ghost index)");
+    free(wire);
+#ifdef REACH
+    __CPROVER_assert(!(type == RFC1035_TYPE_PTR && cls == RFC1035_CLASS_IN && wl == L), "reach: PTR question, full-length name");
+    __CPROVER_assert(!(type == 0xFFFF && len == 0), "reach: root name, extreme type");
+#endif
+}
+#endif
+
+#if defined(T_AQUERY_ROUNDTRIP)
+void h_aquery_roundtrip(void)
+{
+    size_t g_any; g = g_any;
+    ANY_NAME(host, len);
+    unsigned short qid;
+    char want[L + 1];
+    size_t wl = spec_canon(host, len, want);
+    char *pkt = malloc(12 + L + 2 + 4); __CPROVER_assume(pkt != NULL);
+    rfc1035_query q;
+    ssize_t n = rfc1035BuildAQuery(host, pkt, 12 + L + 2 + 4, qid, &q, 0);     /* no EDNS OPT record */
+    __CPROVER_assert(n == 12 + (ssize_t)(wl ? wl + 2 : 1) + 4, "ensures: query size = header + packed name + 4");
+    __CPROVER_assert(q.qtype == RFC1035_TYPE_A && q.qclass == RFC1035_CLASS_IN && (g > len || q.name[g] == host[g]),
+                     "ensures: the query record kept by the caller is (hostname, A, IN) (ghost index)");
+    rfc1035_message *msg = NULL;
+    int r = rfc1035MessageUnpack(pkt, (size_t)n, &msg);
+    __CPROVER_assert(r == 0 && msg != NULL, "ensures: the packed query is a well-formed message without answers");
+    __CPROVER_assert(msg->id == qid && msg->qr == 0 && msg->opcode == 0 && msg->aa == 0 && msg->tc == 0 && msg->rd == 1 &&
+                     msg->ra == 0 && msg->rcode == 0 && msg->qdcount == 1 && msg->ancount == 0 && msg->nscount == 0 &&
+                     msg->arcount == 0, "ensures: the header decodes to (qid, standard query, RD, one question)");
+    __CPROVER_assert(RT_TWIN(msg->query[0].qtype == RFC1035_TYPE_A && msg->query[0].qclass == RFC1035_CLASS_IN),
+                     "ensures: the question decodes to type A, class IN");
+    __CPROVER_assert(g > wl || msg->query[0].name[g] == want[g],
+                     "ensures: the question name decodes to the hostname without empty labels (ghost index)");
+#if WITH_COMPARE
+    /* the test idnsGrokReply applies to match a reply to its query */
+    __CPROVER_assert(!(spec_no_empty_label(host, len)) || rfc1035QueryCompare(&q, &msg->query[0]) == 0,
+                     "ensures: rfc1035QueryCompare matches the decoded question with the kept query (names without empty labels)");
+#endif
+    rfc1035MessageDestroy(&msg);
+    free(pkt);
+#ifdef REACH
+    __CPROVER_assert(!(wl == L), "reach: full-length hostname");
+    __CPROVER_assert(!(len == 0), "reach: empty hostname");
+    __CPROVER_assert(!(wl == 3 && len == 4 && host[3] == '.'), "reach: fully qualified name (trailing dot)");
+#endif
+}
+#endif
+
 /* ---------- the REAL rfc1035RRDestroy (message_safe uses a model of it): frees every rdata and the array ---------- */
 #if defined(T_RRDESTROY)
 void h_rrdestroy(void)
